@@ -64,6 +64,12 @@ pub fn check(c: &Case) -> Checked {
                                 break;
                             }
                         }
+                        Err(p) if p.msg.contains("must be in the future") => {
+                            // the scheduler's documented refusal of a task scheduled at or before
+                            // the current sample (tests/scheduler_test.rs::scheduler_invalid expects it)
+                            res.rejected = true;
+                            break;
+                        }
                         Err(p) => {
                             let tag = p.is_verif_tag().unwrap_or("");
                             let sig = match tag {
@@ -91,6 +97,9 @@ pub fn check(c: &Case) -> Checked {
             }
             Err(BuildError::BackendRefused(m)) => {
                 res.violations.push((format!("backend-refused/{}: {}", b.name(), norm(&m)), m));
+            }
+            Err(BuildError::Panicked(_, p)) if p.msg.contains("must be in the future") => {
+                res.rejected = true;
             }
             Err(BuildError::Panicked(ph, p)) => {
                 let sig = match p.is_verif_tag() {
